@@ -71,7 +71,7 @@ def run(tier):
         return None
 
     def append_second(r):
-        if r.get("ev") == "Call" and r.get("op") == "delete" and r.get("wire"):
+        if r.get("ev") == "Call" and r.get("wire") and r.get("out") in ("answered", "null"):
             r["wire"] = r["wire"] + [48, 5, 2, 1, 9, 66, 0]
             return r
         return None
